@@ -130,6 +130,23 @@ def build_model(layout):
     return Model(layout, models)
 
 
+def aliasing_problems(blocks):
+    """structural invariant at a quiescent point: two different data blocks never share their value container (a block that
+    kept a caller's list - e.g. the list of one broadcast request handed to every unit - makes later writes show up elsewhere)"""
+    seen = {}
+    out = []
+    for uid, bl in blocks.items():
+        for t, b in bl.items():
+            vals = getattr(b, 'values', None)
+            if vals is None:
+                continue
+            key = id(vals)
+            if key in seen and seen[key][2] is not b:
+                out.append('unit %s table %s and unit %s table %s are different blocks sharing one value container' % (seen[key][0], seen[key][1], uid, t))
+            seen.setdefault(key, (uid, t, b))
+    return out
+
+
 def dump(blocks, zero_mode):
     """{uid: {table: {pdu_addr: value}}} read from the real blocks (read-only)"""
     off = 0 if zero_mode else 1
